@@ -72,6 +72,9 @@ type ChunkSpec struct {
 	Kind string `json:"kind"` // full | fixed | rand | onethenrest | geom | straddle
 	K    int    `json:"k,omitempty"`
 	Seed uint64 `json:"seed,omitempty"`
+	// Empty > 0: every Empty-th Read returns (0, nil) - legal for an io.Reader
+	// (a polled device with nothing ready), and io.ReadFull simply reads again
+	Empty int `json:"empty,omitempty"`
 }
 
 // FaultSpec describes the failure of the device.
@@ -125,6 +128,11 @@ type RunConfig struct {
 	CarrierOffset int    `json:"carrier_offset,omitempty"`
 	Picks     []int         `json:"picks,omitempty"`
 	Note      string        `json:"note,omitempty"`
+	// Fresh: the case is executed in a process of its own that has done nothing
+	// else (a re-execution of the engine binary), observed run first: state the
+	// code keeps for the life of a process - a lazily built table, a grow-only
+	// cache, a registry - is then in the condition a real first use finds it in
+	Fresh bool `json:"fresh,omitempty"`
 }
 
 // PreludeSpec is an earlier call made in the same run, before the call under
